@@ -423,7 +423,7 @@ const rule = "Linear: |Min|,|Max| log-uniform in [1e-12,1e12] of either sign and
 	"round trips, clamp, degenerate -> 0.5. Log (via NewLog, positive and negative domains, bases 2..16): the same in log|x| " +
 	"with x within 10 log-widths, NaN for 0 and the wrong sign. NewLog accepts exactly finite ranges excluding 0 with base>=2 " +
 	"(RangeErr otherwise). QQ over all four pairings: Map = Dest.Unmap o Src.Map bit-for-bit, Unmap o Map round trip. " +
-	"Tolerances 16*eps*(|x|+|Min|+|Max|) (relative with log terms for Log). Non-trivial: non-degenerate domain and x not an end."
+	"Tolerances 16*eps*(|x|+|Min|+|Max|) (relative with log terms for Log). Non-trivial: non-degenerate domain and x not an end. Later additions: decreasing Log domains as keyed literals (NewLog orders its arguments), re-used scale values, clamped degenerate Log."
 
 func drawMag(t *rapid.T, label string) float64 {
 	switch rapid.IntRange(0, 2).Draw(t, label+".kind") {
